@@ -402,7 +402,7 @@ pub fn text_faults(spec: &VoiceSpec, rng: &mut Rng, thin: usize) -> Vec<Fault> {
             &["win-count-up", "win-count-zero", "win-count-huge", "win-coef-text", "win-empty", "win-no-newline", "win-neg-count"]
         } else {
             &[
-                "unknown-question-in-node", "qs-renamed", "qs-deleted", "child-to-missing-node", "duplicate-node-id", "leaf-without-number",
+                "unknown-question-in-node", "qs-renamed", "qs-deleted", "child-to-missing-node", "duplicate-node-id", "node-id-far-away", "child-to-root", "leaf-without-number",
                 "leaf-zero", "leaf-huge", "leaf-overflow", "no-closing-brace", "no-opening-brace", "state-text", "state-negative", "state-overflow",
                 "pattern-tag", "requote", "unbalanced-quote", "bad-pattern-char", "empty-pattern-list", "tokens-swapped", "non-utf8", "single-node-to-node",
                 "empty-section", "trees-only-whitespace", "qs-no-braces", "node-id-text", "extra-token", "missing-token", "nul-byte", "crlf",
@@ -499,6 +499,30 @@ fn mutate_text(t: &str, m: &str, rng: &mut Rng) -> (Vec<u8>, bool) {
                 replace_nth_token(t, is_nodeid, 1 + pick(rng, nnode - 1), "-999")
             } else {
                 replace_nth_token(t, is_leaf, pick(rng, nleaf), "-999")
+            }
+        }
+        "node-id-far-away" => {
+            // the number that names a node (at the start of its line) is arbitrary text to a
+            // reader: a far-away one must cost no more than a near one
+            let lines: Vec<&str> = t.lines().collect();
+            let cand: Vec<usize> = lines.iter().enumerate().filter(|(_, l)| l.split_whitespace().count() == 4).map(|(i, _)| i).collect();
+            if cand.is_empty() {
+                None
+            } else {
+                let li = cand[if cand.len() > 1 { 1 + rng.below(cand.len() - 1) } else { 0 }];
+                let toks: Vec<&str> = lines[li].split_whitespace().collect();
+                let far = *rng.pick(&["-20000000", "-2000000000", "-99999999", "-300000000000", "-9000000000000000000"]);
+                let mut l2: Vec<String> = lines.iter().map(|s| s.to_string()).collect();
+                l2[li] = format!(" {} {} {} {} ", far, toks[1], toks[2], toks[3]);
+                Some(l2.join("\n") + "\n")
+            }
+        }
+        "child-to-root" => {
+            // a child reference that names the root (or the node itself): a cycle
+            if nnode > 1 {
+                replace_nth_token(t, is_nodeid, 1 + pick(rng, nnode - 1), "0")
+            } else {
+                None
             }
         }
         "duplicate-node-id" => {
